@@ -33,6 +33,7 @@ RULE = (
     "hash of (sheets, options, fault)."
     "Corpus: runs of 1030 equal cells, a cell behind 1025 empty ones, 16384 columns, 1100 equal rows."
     "Cells with comments (office:annotation), tables without names."
+    "Cells that hold a table of their own (sub tables)."
 )
 ASSUMPTIONS = [
     "the encoder vlib/enc_ods.py writes what ODF 1.2 defines (self-tested per case against its own reference "
